@@ -6,7 +6,7 @@ replay = lc.replay
 
 def run(ctx):
     r1(ctx)
-    lc.run_family(ctx, ("rw", "long", "window"), 1,
+    lc.run_family(ctx, ("rw", "long", "window", "bits"), 1,
                   "LogixDriver sessions on generated projects (atomic types, 1-3 dim arrays, BOOL arrays, nested UDTs with packed BOOLs and "
                   "hidden hosts, strings of several capacities, program scope) x firmware 16/19/20/21/32 and Micro800 x connection size "
                   "4000/500 x target fragment capacities; request lists 1..300 incl. indices, slices, members, bits, BOOL ranges, duplicates")
